@@ -326,6 +326,34 @@ fn record(tier: &str, out: &str) {
         }
     }
 
+    // ---- large setups, sampled: powers around every multiple of 2^12 and the ends ------
+    for &d in (if thorough { &[8200usize, 16400][..] } else { &[8200usize][..] }) {
+        let (tau, sg, sh) = (s.fe(), s.fe(), s.fe());
+        let mut rng = ScriptRng::new(seed ^ d as u64, vec![tau, sg, sh]);
+        let res = guarded(|| PublicParameters::setup(d, &mut rng));
+        let mut ev = json!({"ev": "setup-sample", "d": d, "tau": fe_to_json(&tau), "sg": fe_to_json(&sg),
+                            "sh": fe_to_json(&sh), "res": outcome(&res)});
+        if let Ok(Ok(pp)) = res {
+            let len = V::srs_len(&pp);
+            let mut idx: Vec<usize> = vec![0, 1, 2, 3, len / 3, len - 2, len - 1];
+            let mut m = 4096usize;
+            while m < len {
+                for j in [m - 2, m - 1, m, m + 1, m + 2] {
+                    if j < len {
+                        idx.push(j);
+                    }
+                }
+                m += 4096;
+            }
+            idx.sort();
+            idx.dedup();
+            ev["len"] = json!(len);
+            ev["idx"] = json!(idx);
+            ev["powers"] = json!(idx.iter().map(|i| hex_bytes(&V::srs_power(&pp, *i).unwrap())).collect::<Vec<_>>());
+        }
+        r.emit(ev);
+    }
+
     // ---- trim and commit ----------------------------------------------------
     for k in &knowns {
         let max = k.max;
